@@ -50,11 +50,11 @@ Definition call_precedence (cbs : list cb) (c : cb) : list N * list N :=
   if N.eqb (ckind c) 1 then ([], others cbs c)
   else if N.eqb (ckind c) 2 then (others cbs c, [])
   else
+    (* IrcCallback.callPrecedence (since fix C20.F23 without its own asserts: a callback naming
+       itself reaches the asserts of Irc.addCallback below instead of being swallowed by the firewall) *)
     let after := resolve cbs (cbefore c) in
     let before := resolve cbs (cafter c) in
-    (* `assert self not in after/before` fails -> log.firewall (testing off) logs and
-       returns the errorHandler value ([], []): every constraint of c is dropped *)
-    if mem (cid c) after || mem (cid c) before then ([], []) else (before, after).
+    (before, after).
 
 Definition edges_of_cb (cbs : list cb) (c : cb) : res (list (N * N)) :=
   let '(before, after) := call_precedence cbs c in
@@ -89,21 +89,28 @@ Fixpoint sort_loop (fuel : nat) (all done : list cb) (edges : list (N * N)) : op
       end
   end.
 
-(* Irc.addCallback: new callbacks list * outcome (state-then-raise) *)
+(* Irc.addCallback: new callbacks list * outcome.  Since fix C20.F22 the sort runs in
+   _sortCallbacks() under try/except: on any exception the appended callback is removed again
+   and the exception re-raised, so a failure leaves the list as it was. *)
+Definition sort_callbacks (all : list cb) : res (list cb) :=
+  match all_edges all all with
+  | Raise e => Raise e                                (* 'cb was in its own after/before.' *)
+  | Ok edges =>
+      match sort_loop (S (length all)) all [] edges with
+      | None => Raise OtherError                      (* out of fuel: proved unreachable *)
+      | Some done =>
+          if Nat.eqb (length done) (length all) then Ok done
+          else Raise AssertionError                   (* cyclic constraints *)
+      end
+  end.
+
 Definition add_callback (cbs : list cb) (c : cb) : list cb * res unit :=
   match get_callback cbs (cname c) with
   | Some _ => (cbs, Raise AssertionError)
   | None =>
-      let all := cbs ++ [c] in
-      match all_edges all all with
-      | Raise e => (all, Raise e)
-      | Ok edges =>
-          match sort_loop (S (length all)) all [] edges with
-          | None => (all, Raise OtherError)           (* out of fuel: proved unreachable *)
-          | Some done =>
-              if Nat.eqb (length done) (length all) then (done, Ok tt)
-              else (all, Raise AssertionError)
-          end
+      match sort_callbacks (cbs ++ [c]) with
+      | Ok done => (done, Ok tt)
+      | Raise e => (cbs, Raise e)                     (* self.callbacks.remove(callback); raise *)
       end
   end.
 End Sort.
@@ -115,10 +122,7 @@ Record pspec := P { p_name : str; p_kind : N; p_before : list str; p_after : lis
 Definition mk_cb (i : N) (p : pspec) : cb :=
   Cb i (p_name p) (p_kind p) (p_before p) (p_after p) (p_cmds p).
 
-(* s_unimp: plugin module names that loadPluginModule has popped from sys.modules (its
-   `except: sys.modules.pop(name, None); raise` cleanup after a failed import) and that no later
-   successful import has put back *)
-Record st := St { s_cbs : list cb; s_next : N; s_unimp : list str }.
+Record st := St { s_cbs : list cb; s_next : N }.
 
 Definition oracle := list cb -> list cb.
 Inductive op :=
@@ -139,14 +143,6 @@ Definition find_spec (n : str) : option pspec :=
 
 Inductive imp_res := Mod (p : pspec) | ImpErr | OtherExc.
 
-(* sys.modules bookkeeping of loadPluginModule(n): a module found on disk is (re)entered on
-   success and popped when its import raises; an unknown name raises before any import *)
-Definition unimp_after (u : list str) (n : str) (imp : N) : list str :=
-  match find_spec n with
-  | None => u
-  | Some p => if N.eqb imp 0 then filter (fun x => negb (seq_eqb x (p_name p))) u
-              else p_name p :: u
-  end.
 Definition load_plugin_module (n : str) (imp : N) : imp_res :=
   match find_spec n with
   | None => ImpErr                              (* raise ImportError(name) *)
@@ -159,7 +155,7 @@ Definition load_plugin_class (s : st) (p : pspec) (initf : bool) (o : oracle) : 
   else
     let c := mk_cb (s_next s) p in
     let '(cbs', r) := add_callback o (s_cbs s) c in
-    (St cbs' (N.succ (s_next s)) (s_unimp s), r).
+    (St cbs' (N.succ (s_next s)), r).
 
 Definition is_owner (n : str) : bool := seq_eqb (lower n) (lower gen.T20.OWNER_NAME).
 
@@ -168,11 +164,10 @@ Definition owner_load (s : st) (n : str) (imp : N) (initf : bool) (o : oracle) :
   match get_callback (s_cbs s) n with
   | Some _ => (s, Ok 1)
   | None =>
-      let s1 := St (s_cbs s) (s_next s) (unimp_after (s_unimp s) n imp) in
       match load_plugin_module n imp with
-      | ImpErr => (s1, Ok 1)
-      | OtherExc => (s1, Raise OtherError)
-      | Mod p => let '(s', r) := load_plugin_class s1 p initf o in (s', do _ <- r; Ok 0)
+      | ImpErr => (s, Ok 1)
+      | OtherExc => (s, Raise OtherError)
+      | Mod p => let '(s', r) := load_plugin_class s p initf o in (s', do _ <- r; Ok 0)
       end
   end.
 
@@ -183,7 +178,7 @@ Definition owner_unload (s : st) (n : str) (dief : bool) : st * res N :=
     | None => (s, Ok 1)
     | Some old =>
         let '(bad, good) := remove_callback (s_cbs s) (cname old) in
-        let s' := St good (s_next s) (s_unimp s) in
+        let s' := St good (s_next s) in
         match bad with
         | [] => (s', Ok 1)
         | _ => if dief then (s', Raise OtherError) else (s', Ok 0)
@@ -204,23 +199,21 @@ Definition owner_reload (s : st) (n : str) (imp : N) (initf dief : bool) (o : or
   if is_owner n then (s, Ok 1)
   else
     let '(bad, good) := remove_callback (s_cbs s) n in
-    let s' := St good (s_next s) (s_unimp s) in
+    let s' := St good (s_next s) in
     match bad with
     | [] => (s', Ok 1)
-    | b0 :: _ =>
-        (* module = sys.modules[callbacks[0].__module__]  -- outside the try: KeyError when an
-           earlier failed import has popped the module; nothing restores `bad` *)
-        if existsb (seq_eqb (cname b0)) (s_unimp s) then (s', Raise KeyError)
-        else
-        let s1 := St good (s_next s) (unimp_after (s_unimp s) n imp) in
+    | _ =>
+        (* module = sys.modules.get(callbacks[0].__module__): no KeyError (fix C20.F24) *)
         match load_plugin_module n imp with
-        | OtherExc => (s1, Raise OtherError)          (* not an ImportError: nothing restores `bad` *)
+        | OtherExc =>                                  (* except Exception: put `bad` back, re-raise (fix C20.F21) *)
+            let '(cbs', r) := readd o good bad in (St cbs' (s_next s), do _ <- r; Raise OtherError)
         | ImpErr =>
-            let '(cbs', r) := readd o good bad in
-            (St cbs' (s_next s) (unimp_after (s_unimp s) n imp), do _ <- r; Ok 1)
+            let '(cbs', r) := readd o good bad in (St cbs' (s_next s), do _ <- r; Ok 1)
         | Mod p =>
-            if dief then (s1, Raise OtherError)       (* callback.die() inside the try *)
-            else let '(s'', r) := load_plugin_class s1 p initf o in (s'', do _ <- r; Ok 0)
+            (* else: clause -- die() of the old instances, then the new Class(irc): a failure here
+               still loses the plugin (left as known finding C20.F21) *)
+            if dief then (s', Raise OtherError)
+            else let '(s'', r) := load_plugin_class s' p initf o in (s'', do _ <- r; Ok 0)
         end
     end.
 
@@ -228,13 +221,11 @@ Definition step (s : st) (x : op) : st * res N :=
   match x with
   | Add p o =>
       let '(cbs', r) := add_callback o (s_cbs s) (mk_cb (s_next s) p) in
-      (St cbs' (N.succ (s_next s)) (s_unimp s), do _ <- r; Ok 0)
-  | Remove n => (St (snd (remove_callback (s_cbs s) n)) (s_next s) (s_unimp s), Ok 0)
+      (St cbs' (N.succ (s_next s)), do _ <- r; Ok 0)
+  | Remove n => (St (snd (remove_callback (s_cbs s) n)) (s_next s), Ok 0)
   | Boot n o =>
       match load_plugin_module n 0 with
-      | Mod p =>
-          let s1 := St (s_cbs s) (s_next s) (unimp_after (s_unimp s) n 0) in
-          let '(s', r) := load_plugin_class s1 p false o in (s', do _ <- r; Ok 0)
+      | Mod p => let '(s', r) := load_plugin_class s p false o in (s', do _ <- r; Ok 0)
       | _ => (s, Raise OtherError)
       end
   | Load n imp initf o => owner_load s n imp initf o
@@ -289,7 +280,7 @@ Definition gOp (v : value) : op :=
                 (orc_of (gLS (nth_v 4 a)))
   end.
 
-Definition st0 : st := St [] 0 [].
+Definition st0 : st := St [] 0.
 
 (* run: (op payload)
    op 0: (world ops) -> per operation ((0 reply)|(1 exn), names after it)
